@@ -6,6 +6,10 @@ rows = []
 for f in sorted(glob.glob(os.path.join(V, "seeded", "*", "meta.json"))):
     m = json.load(open(f))
     checks = "; ".join("%s: %s" % (k, v) for k, v in m.get("checks", {}).items())
+    hist = m.get("checks_history") or {}
+    notes = "; ".join("%s: %s" % (k, v) for k, v in hist.items() if "missed before" in v or "after " in v)
+    if notes:
+        checks += " — history: " + notes
     summ = (m.get("summary") or "").replace("\n", " ").replace("|", "/")
     need = (m.get("needs_to_manifest") or "").replace("\n", " ").replace("|", "/")
     rows.append("| `%s` | %s | %s | %s | %s |" % (m["id"], m["property"], summ[:420], need[:380], checks))
